@@ -698,6 +698,42 @@ theorem app_no_new_work_after_stop (ps : List PipeSpec) (hwf : ∀ p ∈ ps, p.w
   · have := hwf p (List.mem_of_getElem? h1) hw
     simp [h2] at this
 
+theorem appRun_all (ps : List PipeSpec) (i : Nat) : appRun ps i false none none = List.range' i ps.length := by
+  induction ps generalizing i with
+  | nil => simp [appRun]
+  | cons p ps ih => simp [appRun, ih, List.range'_succ]
+
+theorem count_range' (j : Nat) : ∀ (n i : Nat), (List.range' i n).count j = if i ≤ j ∧ j < i + n then 1 else 0 := by
+  intro n
+  induction n with
+  | zero => intro i; simp
+  | succ n ih =>
+    intro i
+    rw [List.range'_succ, List.count_cons, ih (i + 1)]
+    by_cases h1 : i = j
+    · subst h1; simp; omega
+    · have : (i == j) = false := by simp [h1]
+      simp only [this]
+      by_cases h2 : i + 1 ≤ j ∧ j < i + 1 + n
+      · have h3 : i ≤ j ∧ j < i + (n + 1) := by omega
+        simp [h2, h3]
+      · have h3 : ¬ (i ≤ j ∧ j < i + (n + 1)) := by omega
+        simp [h2, h3]
+
+/-- **Every pipeline of the series is processed exactly once.**  Without a stop request and without a failing
+pipeline, `Application.run()` begins the pipelines `0, 1, …, n-1` of the series in this order, each exactly once —
+whatever the flags of the pipelines are.  (In the model the series is a value: reading `series.pipelines` or setting
+`series.concurrency` before or during the run cannot change it; the harness builds the real `PipelineSeries` from a
+list, a tuple, a generator and an iterator, reads it before and during the run, and compares with this.) -/
+theorem app_every_pipeline_once (ps : List PipeSpec) :
+    appRun ps 0 false none none = List.range ps.length ∧
+    (∀ j, j < ps.length → (appRun ps 0 false none none).count j = 1) := by
+  have h : appRun ps 0 false none none = List.range ps.length := by
+    rw [appRun_all, List.range_eq_range']
+  refine ⟨h, fun j hj => ?_⟩
+  rw [h, List.range_eq_range', count_range']
+  simp [hj]
+
 /-- wpull's own series satisfies the hypothesis, and e.g. a stop during the download pipeline (1) leaves only
 the shutdown pipeline (4); a stop during start-up (0) skips the crawl; without the `skippable` flag on the link
 conversion pipeline (seeded change C13-7) it would be started after the stop -/
